@@ -73,6 +73,7 @@ type pathState struct {
 	roots       []Value
 	hashes      []*hashApp
 	hstates     map[*Value]*hashState
+	pools       map[*Value][]Value // sync.Pool contents (intr_sync.go)
 	proveMemo   map[int]bool
 	pemLen      int
 	tableArr    map[*bnode]*Term
